@@ -77,7 +77,12 @@ class RecvWorld:
             raise simzmq.Again()
         env = json.loads(parts[0].decode())
         i = self.push_index(sock)
-        self.out(['u', i, [7, i, env['mid'], env.get('eph', 0), bool(env.get('new', False)), env.get('xtra')]])
+        # the connection id ('uid') a request carries belongs to ONE attachment: canonicalised as the index of the source that used
+        # it first (= i when every attachment has its own, as the publisher's client table - keyed by client id + uid - needs)
+        if not hasattr(self, 'uid_owner'):
+            self.uid_owner = {}
+        owner = self.uid_owner.setdefault(env.get('uid'), i)
+        self.out(['u', i, [7, owner, env['mid'], env.get('eph', 0), bool(env.get('new', False)), env.get('xtra')]])
 
     def push_index(self, sock):
         # PUSH sockets exist only for sources with eph < 2; map by the Sender object
@@ -478,6 +483,17 @@ def recv_oracle(run, case, props, wf):
     last_id = None
     eph_last = {}
     summary = dict(cfg=cfg, script=[it[3] for it in case['items']])
+    if props & {'C04', 'C05', 'C06'}:
+        for it in case['items']:
+            for o in it[1]:
+                if o[0] == 'u' and o[2][1] != o[1]:
+                    run.violation('receiver:connection-id-shared sources=%d,%d' % (o[2][1], o[1]),
+                                  'the request to source %d carries the connection id of source %d: at a publisher both attachments are one client record, '
+                                  'the later request (e.g. of a \'?\' attachment) overwrites the earlier one' % (o[1], o[2][1]), summary)
+                    break
+            else:
+                continue
+            break
     for c in case['calls']:
         ret = c.get('ret')
         if not ret:
@@ -824,6 +840,12 @@ def run_sender_case(rng, budget=70, adversarial=False):
                 next_state = None if res is None else res.msg_id
                 if rng.random() < 0.1:
                     break
+            # an orderly end: destroy() says CLOSE on every output whoever is (still) listening - '??' viewers never appear in the
+            # client table and rely on it to drop what they hold of the old incarnation
+            if not any(isinstance(c.get('raised'), (str, bool)) and c.get('raised') for c in calls) and rng.random() < 0.6:
+                w.begin('SDestroy', ['destroy'])
+                s.destroy()
+                w.flush_pubs()
         except ScriptEnd:
             pass
         w.close_last()
@@ -873,6 +895,11 @@ def send_oracle(run, case, props):
         if 'C07' in props and not cfg['balance'] and len(p['outs']) != cfg['nout']:
             run.violation('unbalanced:partial-outs outs=%s' % p['outs'], 'a non-balanced publisher skipped an output', summary)
         last = p['mid'] if last is None else max(last, p['mid'])
+    if props & {'C05', 'C06', 'C08'}:
+        for it in case['items']:
+            if it[3][0] == 'destroy' and not any(o[0] == 'C' for o in it[1]):
+                run.violation('sender:destroy-without-close', 'ZMQSender.destroy() did not publish CLOSE (client table: %s)'
+                              % ([(c[0], c[5]) for c in it[2][1]] if it[2] else '?'), summary)
     if props & {'C02', 'C07', 'C03'}:
         # send() reports what it did: a call during which the frame went out does not return None ("timed out, nothing sent") -
         # the caller would send the same frame again, under the next id
